@@ -83,6 +83,7 @@ type FileOpts struct {
 	MaxTracks   int
 	MaxEvents   int
 	MaxPayload  int
+	MaxAlien    int  // largest alien chunk body (0 = 300)
 	Alien       bool // alien chunks before / between / after the tracks
 	Pads        bool // non-minimal VLQs
 	Running     bool // running status
@@ -91,7 +92,7 @@ type FileOpts struct {
 }
 
 // AllFreedoms is the C02 configuration.
-var AllFreedoms = FileOpts{MaxTracks: 5, MaxEvents: 14, MaxPayload: 70000, Alien: true, Pads: true, Running: true, Escapes: true, UnknownMeta: true}
+var AllFreedoms = FileOpts{MaxTracks: 5, MaxEvents: 14, MaxPayload: 70000, MaxAlien: 70001, Alien: true, Pads: true, Running: true, Escapes: true, UnknownMeta: true}
 
 var textTypes = []byte{0x01, 0x02, 0x03, 0x04, 0x05, 0x06, 0x07, 0x08, 0x09, 0x7F}
 
@@ -183,7 +184,7 @@ func TrackEvents(t *rapid.T, o FileOpts, maxDelta uint32) []smfref.Event {
 }
 
 // AlienChunk draws a chunk of a type that is neither MTrk nor MThd.
-func AlienChunk(t *rapid.T) smfref.Chunk {
+func AlienChunk(t *rapid.T, maxLen int) smfref.Chunk {
 	var c smfref.Chunk
 	typ := rapid.OneOf(
 		rapid.SampledFrom([]string{"XFIH", "XFKM", "MTrK", "mtrk", "MThD", "    ", "RIFF", "\x00\x00\x00\x00", "\xff\xff\xff\xff", "MTr\x00"}),
@@ -193,7 +194,19 @@ func AlienChunk(t *rapid.T) smfref.Chunk {
 		typ = "MTrX"
 	}
 	copy(c.Type[:], typ)
-	n := rapid.OneOf(rapid.IntRange(0, 8), rapid.IntRange(0, 300)).Draw(t, "alienLen")
+	if maxLen <= 0 {
+		maxLen = 300
+	}
+	var edges []int
+	for _, e := range []int{255, 256, 257, 65535, 65536, 65537, 70001} {
+		if e <= maxLen {
+			edges = append(edges, e)
+		}
+	}
+	if len(edges) == 0 {
+		edges = []int{maxLen}
+	}
+	n := rapid.OneOf(rapid.IntRange(0, 8), rapid.IntRange(0, min(maxLen, 300)), rapid.IntRange(0, min(maxLen, 300)), rapid.SampledFrom(edges)).Draw(t, "alienLen")
 	c.Data = Payload(t, n, "alien")
 	return c
 }
@@ -214,7 +227,7 @@ func File(t *rapid.T, o FileOpts) smfref.File {
 		}
 		k := rapid.SampledFrom([]int{0, 0, 0, 1, 1, 2}).Draw(t, "alien-"+where)
 		for i := 0; i < k; i++ {
-			f.Chunks = append(f.Chunks, AlienChunk(t))
+			f.Chunks = append(f.Chunks, AlienChunk(t, o.MaxAlien))
 		}
 	}
 	for i := 0; i < ntr; i++ {
